@@ -62,7 +62,7 @@ CompositePairs(comp, E, V) ==
     CASE comp = "nofunc"   -> {}
       [] comp = "ret_none" -> {}
       [] comp = "empty"    -> {}
-      [] comp = "total"    -> {<<"total", SumOver(Range(E), V)>>, <<"n", Len(E)>>}
+      [] comp \in {"total", "total_shared"} -> {<<"total", SumOver(Range(E), V)>>, <<"n", Len(E)>>}
 NewRec(c, t, E, V) ==
     (IF c.incl THEN {<<"timestep", t>>} ELSE {})
     \cup {<<a, AgentResult(c.fkind, V[a])[2]>> : a \in {b \in Range(E) : AgentResult(c.fkind, V[b])[1]}}
